@@ -6,10 +6,11 @@ from .rtcommon import (configs, rt, every_return_passes, bool_switches_on_call, 
 
 CLAIM = dict(
     level="other", engine="mirfacts+witness", design="DESIGN.md §5 C18",
-    technique="MIR dominator / must-pass-through / who-may-write rules + compile_fail witnesses (!Unpin)",
+    technique="MIR dominator / must-pass-through / who-may-write rules with an inline view through private same-crate "
+              "helpers and closures passed to them (visibility read from the syntax tree) + compile_fail witnesses (!Unpin)",
     text="Static path rules on the runtime crate's MIR: the waitable leaves the set before the cancel built-in on "
          "every path, delivery removes it from sets and map before the single callback, register/unregister always "
-         "update both set and map, only three functions mutate the map, Drop of an unfinished operation always "
+         "update both set and map, only three functions (or private helpers called only by them) mutate the map, Drop of an unfinished operation always "
          "cancels, moving between tasks never registers before leaving. Partial: schedules are not explored.",
     note="mir")
 
